@@ -152,11 +152,16 @@ def handler_clause_programs():
     clauses = ['(ValueError, 42)', '(42, ValueError)', '(KeyError, 42)', '42', '(ValueError, None)', '(ValueError, "s")', '(ValueError, object)', '(ValueError, int, KeyError)', '(KeyError, ValueError, 1.5)',
                '((ValueError, 42),)', '(ValueError, (KeyError, 42))', '()', '(ValueError,)', 'NotExc', '(Exception, NotExc)', '(NotExc, Exception)', '[ValueError]', '(LookupError, E1, 0)', 'E1', '(E1, 7)']
     raises = ['raise ValueError("v")', 'raise KeyError("k")', 'raise E1', 'pass', 'q = 1 // 0']
-    for ci, cl in enumerate(clauses):
-        for ri, rs in enumerate(raises):
+    # things that cannot be raised, causes that cannot be causes
+    bad_raises = ['raise 42', 'raise "s"', 'raise None', 'raise ValueError("v") from 42', 'raise ValueError("v") from None', 'raise (ValueError, 1)', 'raise NotExc', 'raise NotExc()',
+                  'raise ValueError("v") from KeyError', 'raise E1 from "s"', 'raise int', 'raise KeyError("k") from E1("c")']
+    combos = [(ci, cl, ri, rs) for ci, cl in enumerate(clauses) for ri, rs in enumerate(raises)]
+    combos += [(100 + ci, cl, 100 + ri, rs) for ci, cl in enumerate(['(ValueError, TypeError)', 'Exception', 'ValueError', '(KeyError, 42)', 'LookupError']) for ri, rs in enumerate(bad_raises)]
+    for ci, cl, ri, rs in combos:
+        for _once in (0,):
             for asn in ('', ' as e'):
                 src = ('class E1(ValueError):\n    pass\nclass NotExc:\n    pass\ndef f():\n    try:\n        try:\n            print("body")\n            %s\n            print("body-end")\n        except %s%s:\n            print("handler")\n'
                        '        else:\n            print("else")\n        finally:\n            print("finally")\n    except TypeError:\n        print("outer-TypeError")\n    except ValueError:\n        print("outer-ValueError")\n'
                        '    except LookupError:\n        print("outer-LookupError")\n    except ZeroDivisionError:\n        print("outer-ZeroDivisionError")\n    return "end"\nprint(f())\n' % (rs, cl, asn))
-                out.append({'id': 'hclause-%d-%d-%s' % (ci, ri, 'as' if asn else 'plain'), 'src': src, 'family': 'handler-clause-validation', 'outer': rs.split('(')[0].replace('raise ', ''), 'inner': cl})
+                out.append({'id': 'hclause-%d-%d-%s' % (ci, ri, 'as' if asn else 'plain'), 'src': src, 'family': 'handler-clause-validation' if ri < 100 else 'raise-of-non-exception', 'outer': rs.replace('raise ', '')[:30], 'inner': cl})
     return out
